@@ -25,18 +25,20 @@ CONSTANTS Exts,     \* extents New may choose (set of <<x, y, z>>, all component
                     \* instance: the ghost `last` makes the graph quadratic in the number of labels;
                     \* the complete parameter sets are covered by Array3DCases and by ViewLaws)
 
-VARIABLES arr, made, last
-vars == <<arr, made, last>>
+VARIABLES arr, made, extmem, last
+vars == <<arr, made, extmem, last>>
 
 OwnInit    == 0
 ExtInit(k) == 100 + k          \* content of the external memory at offset k-1
 
-Proj(A) == [size |-> A.size, n |-> NumElements(A), dump |-> A.val]
+\* what every step is compared on: size, numElements, get at every cell, and - for an array on external
+\* memory - the raw content of that memory (cell c lives at offset LongIndex(c, size), nothing else is touched)
+Proj2(A, x) == [size |-> A.size, n |-> NumElements(A), dump |-> A.val, mem |-> IF x THEN A.val ELSE <<>>]
 NoArr   == [size |-> <<0, 0, 0>>, val |-> <<>>]
 
-Init == arr = NoArr /\ made = FALSE /\ last = [a |-> "Init", arg |-> <<>>, cls |-> "", exp |-> Proj(NoArr)]
+Init == arr = NoArr /\ made = FALSE /\ extmem = FALSE /\ last = [a |-> "Init", arg |-> <<>>, cls |-> "", exp |-> Proj2(NoArr, FALSE)]
 
-TypeOK == /\ made \in BOOLEAN
+TypeOK == /\ made \in BOOLEAN /\ extmem \in BOOLEAN
           /\ IsArray(arr)
           /\ made => \A i \in 1..3 : arr.size[i] >= 1
 
@@ -45,40 +47,46 @@ Window(d) == ((-Margin)..(d[1] - 1 + Margin)) \X ((-Margin)..(d[2] - 1 + Margin)
 -------------------------------------------------------------------------------
 New(d, mode) ==
   /\ ~made
-  /\ made' = TRUE
+  /\ made' = TRUE /\ extmem' = (mode = "ext")
   /\ arr' = [size |-> d, val |-> [k \in 1..Total3(d) |-> IF mode = "own" THEN OwnInit ELSE ExtInit(k)]]
-  /\ last' = [a |-> "New", arg |-> [d |-> d, mode |-> mode, mem |-> arr'.val], cls |-> mode, exp |-> Proj(arr')]
+  /\ last' = [a |-> "New", arg |-> [d |-> d, mode |-> mode, mem |-> arr'.val], cls |-> mode, exp |-> Proj2(arr', extmem')]
 
 \* set(c, v), c inside the extent ("'where' MUST be a valid cell location")
 Set(c, v) ==
   /\ made /\ c \in Coords3(arr.size)
-  /\ arr' = WithCell(arr, c, v) /\ UNCHANGED made
-  /\ last' = [a |-> "Set", arg |-> [c |-> c, v |-> v], cls |-> "", exp |-> Proj(arr')]
+  /\ arr' = WithCell(arr, c, v) /\ UNCHANGED <<made, extmem>>
+  /\ last' = [a |-> "Set", arg |-> [c |-> c, v |-> v], cls |-> "", exp |-> Proj2(arr', extmem')]
 
 Clear(v) ==
   /\ made
-  /\ arr' = Filled(arr, v) /\ UNCHANGED made
-  /\ last' = [a |-> "Clear", arg |-> [v |-> v], cls |-> "", exp |-> Proj(arr')]
+  /\ arr' = Filled(arr, v) /\ UNCHANGED <<made, extmem>>
+  /\ last' = [a |-> "Clear", arg |-> [v |-> v], cls |-> "", exp |-> Proj2(arr', extmem')]
+
+\* the user writes v into the external memory at offset o (0-based): it is the cell whose flat index is o
+Poke(o, v) ==
+  /\ made /\ extmem /\ o \in 0..(Len(arr.val) - 1)
+  /\ arr' = [arr EXCEPT !.val[o + 1] = v] /\ UNCHANGED <<made, extmem>>
+  /\ last' = [a |-> "Poke", arg |-> [o |-> o, v |-> v], cls |-> "", exp |-> Proj2(arr', extmem')]
 
 \* get(c) for any coordinate: the value last set at the clamped coordinate
 Get(c) ==
   /\ made
-  /\ UNCHANGED <<arr, made>>
+  /\ UNCHANGED <<arr, made, extmem>>
   /\ last' = [a |-> "Get", arg |-> [c |-> c], cls |-> IF c \in Coords3(arr.size) THEN "inside" ELSE "outside",
-              exp |-> [v |-> ActualGet(arr, c)] @@ Proj(arr)]
+              exp |-> [v |-> ActualGet(arr, c)] @@ Proj2(arr, extmem)]
 
 \* getValueRange(lo, hi) for a non-empty region inside the extent
 Range(lo, hi) ==
   /\ made /\ InsideBox(arr.size, lo, hi)
-  /\ UNCHANGED <<arr, made>>
+  /\ UNCHANGED <<arr, made, extmem>>
   /\ last' = [a |-> "Range", arg |-> [lo |-> lo, hi |-> hi], cls |-> "non-empty",
-              exp |-> [range |-> RangeOf(arr, lo, hi)] @@ Proj(arr)]
+              exp |-> [range |-> RangeOf(arr, lo, hi)] @@ Proj2(arr, extmem)]
 
 \* getValueRange()
 RangeWhole ==
   /\ made
-  /\ UNCHANGED <<arr, made>>
-  /\ last' = [a |-> "RangeWhole", arg |-> <<>>, cls |-> "", exp |-> [range |-> RangeAll(arr)] @@ Proj(arr)]
+  /\ UNCHANGED <<arr, made, extmem>>
+  /\ last' = [a |-> "RangeWhole", arg |-> <<>>, cls |-> "", exp |-> [range |-> RangeAll(arr)] @@ Proj2(arr, extmem)]
 
 \* the complete table of a view (get at every coordinate of the view's size, in flattened order)
 \* and get at the given probe coordinates, which may lie outside the view's size (GetE of Array3DOps:
@@ -90,29 +98,29 @@ SlicesOf(ps) == SlicesE([i \in 1..Len(ps) |-> SubE(<<0, 0, ps[i]>>, <<arr.size[1
 
 ViewShift(s, P) ==
   /\ made /\ ShiftClaimed(arr.size, s) /\ AllDefined(ShiftE(s, ArrLeaf(arr)), P)
-  /\ UNCHANGED <<arr, made>>
+  /\ UNCHANGED <<arr, made, extmem>>
   /\ last' = [a |-> "ViewShift", arg |-> [s |-> s, probes |-> P], cls |-> "",
-              exp |-> ViewExp(ShiftView(arr, s)) @@ OutExp(ShiftE(s, ArrLeaf(arr)), P) @@ Proj(arr)]
+              exp |-> ViewExp(ShiftView(arr, s)) @@ OutExp(ShiftE(s, ArrLeaf(arr)), P) @@ Proj2(arr, extmem)]
 
 ViewSub(lo, hi, P) ==
   /\ made /\ InsideBox(arr.size, lo, hi) /\ AllDefined(SubE(lo, hi, ArrLeaf(arr)), P)
-  /\ UNCHANGED <<arr, made>>
+  /\ UNCHANGED <<arr, made, extmem>>
   /\ last' = [a |-> "ViewSub", arg |-> [lo |-> lo, hi |-> hi, probes |-> P], cls |-> "",
-              exp |-> ViewExp(SubView(arr, lo, hi)) @@ OutExp(SubE(lo, hi, ArrLeaf(arr)), P) @@ Proj(arr)]
+              exp |-> ViewExp(SubView(arr, lo, hi)) @@ OutExp(SubE(lo, hi, ArrLeaf(arr)), P) @@ Proj2(arr, extmem)]
 
 ViewAcc(P) ==
   /\ made /\ AllDefined(AccE("f64", ArrLeaf(arr)), P)
-  /\ UNCHANGED <<arr, made>>
+  /\ UNCHANGED <<arr, made, extmem>>
   /\ last' = [a |-> "ViewAcc", arg |-> [probes |-> P], cls |-> "",
-              exp |-> ViewExp(AccView(arr)) @@ OutExp(AccE("f64", ArrLeaf(arr)), P) @@ Proj(arr)]
+              exp |-> ViewExp(AccView(arr)) @@ OutExp(AccE("f64", ArrLeaf(arr)), P) @@ Proj2(arr, extmem)]
 
 \* MultiSliceArray3D whose slices are the z-planes ps[1], ps[2], ... of the array (SubBox views)
 ViewSlices(ps, P) ==
   /\ made /\ Len(ps) >= 1 /\ \A i \in 1..Len(ps) : ps[i] \in 0..(arr.size[3] - 1)
   /\ AllDefined(SlicesOf(ps), P)
-  /\ UNCHANGED <<arr, made>>
+  /\ UNCHANGED <<arr, made, extmem>>
   /\ last' = [a |-> "ViewSlices", arg |-> [ps |-> ps, probes |-> P], cls |-> "",
-              exp |-> ViewExp(SliceView([i \in 1..Len(ps) |-> PlaneOf(arr, ps[i])])) @@ OutExp(SlicesOf(ps), P) @@ Proj(arr)]
+              exp |-> ViewExp(SliceView([i \in 1..Len(ps) |-> PlaneOf(arr, ps[i])])) @@ OutExp(SlicesOf(ps), P) @@ Proj2(arr, extmem)]
 
 \* the probes Next uses: every coordinate from -Margin to size-1+Margin per axis that the view gives a meaning
 \* (Sparse: only the coordinates with every component at an end of that range, or exactly one component
@@ -129,6 +137,7 @@ NextMut ==
   \/ \E d \in Exts, mode \in {"own", "ext"} : New(d, mode)
   \/ \E c \in Coords3(arr.size), v \in Vals : Set(c, v)
   \/ \E v \in Vals : Clear(v)
+  \/ \E o \in (IF Sparse THEN {0, Len(arr.val) - 1} ELSE 0..(Len(arr.val) - 1)), v \in Vals : Poke(o, v)
 GetSet(d)   == IF Sparse THEN Coords3(d) \cup {c \in Window(d) : \A i \in 1..3 : c[i] \in {-Margin, d[i] - 1 + Margin}}
                ELSE Window(d)
 ShiftSet(d) == IF Sparse THEN {Minus(<<0, 0, 0>>, d), d, <<1, 0, 0>>, <<0, 1, 0>>, <<0, 0, 1>>, <<-1, -1, -1>>}
@@ -147,6 +156,6 @@ Spec == Init /\ [][Next]_vars
 SpecMut == Init /\ [][NextMut]_vars     \* every array state, without the reading steps
 
 -------------------------------------------------------------------------------
-LastAgrees == last.exp.dump = arr.val /\ last.exp.size = arr.size
+LastAgrees == last.exp.dump = arr.val /\ last.exp.size = arr.size /\ (extmem => last.exp.mem = arr.val)
 ViewLaws   == made => LawShift(arr) /\ LawSub(arr) /\ LawSlices(arr) /\ LawRange(arr) /\ LawClamp(arr) /\ LawOutside(arr)
 ===============================================================================
